@@ -570,6 +570,65 @@ static void build(vf::Plan &plan, const vf::Opts &o)
                    },
                    [hp](uint64_t i) { return strf("haystack %s needle nullptr", show((*hp)[i].raw).c_str()); });
     }
+    // ---- needles that point into the haystack's own storage (a window of its own c_str()): same answer as for a separate copy
+    if (!reduced) {
+        HPool hp = hays(T ? 5 : 4);
+        for (const char *l : {"abababab-abababab-xyz", "aaaaaaaaaaaaaaaaaaaab", "The quick brown fox, the quick brown dog"}) hp->push_back(make_hay(l));
+        plan.stage(strf("aliased needle: every window of the haystack's own storage as needle (H^<=%u and three long haystacks), every start / limit", T ? 5 : 4),
+                   hp->size(),
+                   [hp](uint64_t i, Ctx &c) {
+                       const Hay &H = (*hp)[i];
+                       const ST::string &h = H.s;
+                       const size_t n = H.raw.size();
+                       vf::Outcome o = vf::guard([&] {
+                           for (size_t off = 0; off <= n; ++off)
+                               for (size_t len = 0; off + len <= n; ++len) {
+                                   if (n > 8 && len > 4 && len + 2 < n - off) continue;  // long haystacks: short windows and windows reaching the end
+                                   const char *own = h.c_str() + off;
+                                   std::string copy(own, len);
+                                   const bool to_end = off + len == n && H.raw.find('\0', off) == std::string::npos;  // own is also a C string for this window
+                                   for (int ci = 0; ci < 2; ++ci) {
+                                       ST::case_sensitivity_t cs = ci ? ST::case_insensitive : ST::case_sensitive;
+                                       for (size_t pos : {size_t(0), size_t(1), off, off + 1, n}) {
+                                           long a1 = OP(h.find(pos, own, len, cs)), b1 = OP(h.find(pos, copy.data(), len, cs));
+                                           long a2 = OP(h.find_last(pos, own, len, cs)), b2 = OP(h.find_last(pos, copy.data(), len, cs));
+                                           val();
+                                           if (a1 != b1)
+                                               c.fail(strf("find(start,ptr,len):%s:needle-inside-the-haystack:differs-from-a-copy", ci ? "ci" : "cs"),
+                                                      strf("haystack %s find(%zu, own c_str()+%zu, %zu) = %ld, with a copy of those bytes %ld", show(H.raw).c_str(), pos, off, len, a1, b1));
+                                           if (a2 != b2)
+                                               c.fail(strf("find_last(max,ptr,len):%s:needle-inside-the-haystack:differs-from-a-copy", ci ? "ci" : "cs"),
+                                                      strf("haystack %s find_last(%zu, own c_str()+%zu, %zu) = %ld, with a copy %ld", show(H.raw).c_str(), pos, off, len, a2, b2));
+                                       }
+                                       long a3 = OP(h.find(own, len, cs)), b3 = OP(h.find(copy.data(), len, cs));
+                                       long a4 = OP(h.find_last(own, len, cs)), b4 = OP(h.find_last(copy.data(), len, cs));
+                                       bool a5 = OP(h.contains(own, len, cs)), b5 = OP(h.contains(copy.data(), len, cs));
+                                       val();
+                                       if (a3 != b3 || a4 != b4 || a5 != b5)
+                                           c.fail(strf("find/find_last/contains(ptr,len):%s:needle-inside-the-haystack:differs-from-a-copy", ci ? "ci" : "cs"),
+                                                  strf("haystack %s window +%zu,%zu: %ld/%ld/%d, with a copy %ld/%ld/%d", show(H.raw).c_str(), off, len, a3, a4, (int)a5, b3, b4, (int)b5));
+                                       if (to_end) {
+                                           long z1 = OP(h.find(own, cs)), y1 = OP(h.find(copy.c_str(), cs));
+                                           long z2 = OP(h.find_last(own, cs)), y2 = OP(h.find_last(copy.c_str(), cs));
+                                           long z3 = OP(h.find(1, own, cs)), y3 = OP(h.find(1, copy.c_str(), cs));
+                                           bool z4 = OP(h.ends_with(own, cs)), y4 = OP(h.ends_with(copy.c_str(), cs));
+                                           bool z5 = OP(h.starts_with(own, cs)), y5 = OP(h.starts_with(copy.c_str(), cs));
+                                           bool z6 = OP(h.contains(own, cs)), y6 = OP(h.contains(copy.c_str(), cs));
+                                           long z7 = OP(h.find((const char8_t *)own, cs)), y7 = y1;
+                                           val();
+                                           if (z1 != y1 || z2 != y2 || z3 != y3 || z4 != y4 || z5 != y5 || z6 != y6 || z7 != y7)
+                                               c.fail(strf("const char* forms:%s:needle-inside-the-haystack:differs-from-a-copy", ci ? "ci" : "cs"),
+                                                      strf("haystack %s needle = own c_str()+%zu: find %ld/%ld, find_last %ld/%ld, find(1,) %ld/%ld, ends_with %d/%d, starts_with %d/%d, contains %d/%d",
+                                                           show(H.raw).c_str(), off, z1, y1, z2, y2, z3, y3, (int)z4, (int)y4, (int)z5, (int)y5, (int)z6, (int)y6));
+                                       }
+                                   }
+                               }
+                       });
+                       if (!o.ok()) c.fail(strf("aliased-needle:%s", vf::outkind_name(o.kind)), o.str());
+                       if (n > 1) c.nontrivial();
+                   },
+                   [hp](uint64_t i) { return strf("haystack %s", show((*hp)[i].raw).c_str()); });
+    }
     // ---- a haystack of more than 2^31 bytes (indices that no longer fit an int / a 32-bit integer)
     if (!reduced) {
         auto &st = plan.stage("huge haystack: 2^31+64 bytes (lazily mapped), occurrences and start / limit positions beyond 2^31", 1,
